@@ -125,6 +125,18 @@ def check_case(case, shard):
             shard.violate(f"C06/{stat}:identity", f"value {v!r} != max(0, 2NLL(cond) - 2NLL(free)) = {expect!r} at the returned parameters (zeroing rule {'applied' if zeroed else 'not applicable'}); {ctx}", c, "identity")
         else:
             shard.ok("identity")
+        # --- the plain call (no fitted parameters requested, the default every caller but the asymptotic calculator
+        # uses) is the same statistic: same inputs, same fits
+        try:
+            vp = float(to_np(statfn(stat)(mu, data, model, init, bounds, fixed)))
+            if not abs(vp - v) <= 1e-7 * (abs(nll_c) + abs(nll_f) + 1):
+                shard.violate(f"C06/{stat}:plain-call-differs", f"plain call returns {vp!r}, the call that also returns the fitted parameters {v!r}; {ctx}", c, "identity")
+            else:
+                shard.ok("identity")
+        except E.FailedMinimization:
+            shard.skip("fit reported failure")
+        except Exception as e:
+            shard.violate(f"C06/{stat}:raised", f"plain {stat}(mu={mu}) raised {type(e).__name__}: {str(e)[:200]}; {ctx}", c, "case_rules")
         branch = "zeroed" if zeroed else ("at-bound" if abs(muhat - lo) < 1e-6 else ("positive" if v > 1e-6 else "zero"))
         shard.covered(f"branches_{stat}", branch)
         # --- closed form
